@@ -181,3 +181,54 @@ def run(which=None, verbose=True):
 if __name__ == "__main__":
     sel = [int(x) for x in sys.argv[1:]]
     sys.exit(0 if run(sel or None) else 1)
+
+
+# ---- adapter for ./check selftest (vf.selftest calls run_mutant per entry) ---------------------------------------------
+_ST = {}
+
+
+def run_mutant(tmp, relpath, suffix, old, new):
+    import json
+
+    here = os.path.dirname(os.path.dirname(os.path.abspath(__file__)))
+    src_root = os.path.realpath(os.environ.get("VERIF_REPO", "/repo"))
+    scratch = os.path.join(tmp, "c03")
+    code = ("import sys, json; sys.path.insert(0, %r); import contracts.c03_frame as F; "
+            "obs = F.provider(); print('##' + json.dumps({o.id: o.status for o in obs}))" % here)
+
+    def provider():
+        env = dict(os.environ, VERIF_REPO=scratch, PYTHONPATH=scratch, PYTHONWARNINGS="ignore",
+                   NUMBA_CACHE_DIR=os.path.join(tmp, "numba-cache-c03"))
+        r = subprocess.run([sys.executable, "-c", code], capture_output=True, text=True, env=env)
+        line = [x for x in r.stdout.splitlines() if x.startswith("##")]
+        if not line:
+            raise RuntimeError(r.stderr[-1500:])
+        return json.loads(line[-1][2:])
+
+    if "base" not in _ST:
+        shutil.rmtree(os.path.join(scratch, "quimb"), ignore_errors=True)
+        shutil.copytree(os.path.join(src_root, "quimb"), os.path.join(scratch, "quimb"),
+                        ignore=shutil.ignore_patterns("__pycache__", "*.pyc", "*.nbi", "*.nbc", "*.ipynb"))
+        _ST["base"] = provider()
+    base = _ST["base"]
+    orig = open(os.path.join(src_root, relpath)).read()
+    if orig.count(old) < 1:
+        return "stale", "old text not found in the current source"
+    path = os.path.join(scratch, relpath)
+    open(path, "w").write(orig.replace(old, new, 1))
+    try:
+        res = provider()
+    finally:
+        open(path, "w").write(orig)
+    hit = {k: v for k, v in res.items() if suffix in k}
+    if not hit:
+        return "stale", f"no obligation id contains {suffix!r}"
+    failed_hit = [k for k, v in hit.items() if v == "failed" or (v == "unknown" and "leaf-summary" in k)]
+    if failed_hit:
+        return "failed", failed_hit[0].split("::", 1)[1][:80]
+    newly_failed = [k for k, v in res.items() if v == "failed" and base.get(k) != "failed"]
+    if newly_failed:
+        return "failed", "(elsewhere) " + newly_failed[0].split("::", 1)[1][:80]
+    if all(v == "discharged" for v in hit.values()):
+        return "discharged", ""
+    return "unknown", str({k: v for k, v in hit.items() if v != "discharged"})[:120]
